@@ -17,5 +17,25 @@ func plans() map[string]Plan {
 		Thorough: []Job{{Name: "stepspace", Engine: "e1"}},
 		QuickCap: 240, ThoroughCap: 3000,
 		Assumptions: baseAssumptions}
+	p["C02"] = Plan{Prop: "C02",
+		Quick:    []Job{{Name: "battles", Engine: "e2"}},
+		Thorough: []Job{{Name: "battles", Engine: "e2"}},
+		QuickCap: 240, ThoroughCap: 3000,
+		Assumptions: baseAssumptions}
+	p["C12"] = Plan{Prop: "C12",
+		Quick:    []Job{{Name: "battles", Engine: "e2"}},
+		Thorough: []Job{{Name: "battles", Engine: "e2"}},
+		QuickCap: 240, ThoroughCap: 3000,
+		Assumptions: baseAssumptions}
+	p["C04"] = Plan{Prop: "C04",
+		Quick:    []Job{{Name: "stepspace", Engine: "e1"}, {Name: "battles", Engine: "e2"}},
+		Thorough: []Job{{Name: "stepspace", Engine: "e1"}, {Name: "battles", Engine: "e2"}},
+		QuickCap: 240, ThoroughCap: 3000,
+		Assumptions: baseAssumptions}
+	p["C15"] = Plan{Prop: "C15",
+		Quick:    []Job{{Name: "stepspace", Engine: "e1"}, {Name: "battles", Engine: "e2"}},
+		Thorough: []Job{{Name: "stepspace", Engine: "e1"}, {Name: "battles", Engine: "e2"}},
+		QuickCap: 240, ThoroughCap: 3000,
+		Assumptions: baseAssumptions}
 	return p
 }
